@@ -24,7 +24,7 @@ MANIFEST = dict(cat=LEVEL, ref="DESIGN.md 6 (C21), notes/C21.md",
     tech="TLA+ reference RelDDL.tla (catalog + rows, DDL and DML as actions with result and post-state, named deviation "
          "switch) model-checked by TLC; TLC-enumerated behaviours and random walks replayed on TurDB with full observation "
          "(SELECT *, COUNT, lookups per column, CLI catalog listing, schema probe) compared with the model",
-    text="all 2-statement behaviours from a populated 4-column table and all 3-statement behaviours from an empty database "
+    text="(plus WideTable.tla with WithDDL: CREATE INDEX / DROP INDEX on a table prefilled with 600 rows, every index probed against the scan and the model after every step) all 2-statement behaviours from a populated 4-column table and all 3-statement behaviours from an empty database "
          "(quick: sampled by class) plus random walks of DDL/DML/reopen over two same-named tables in two schemas leave "
          "TurDB in the state the reference predicts, except for the listed findings",
     note="INT columns only; one index name; DROP SCHEMA only of an empty schema; RENAME TABLE, IF [NOT] EXISTS, composite "
